@@ -42,7 +42,16 @@ def _exec_case(job):
                          env=cfg.get("env"))
         o = sf.Outcome(); o.rc = rc; o.stdout = so; o.stderr = se; o.kind = sf.classify(rc, se)
     else:
-        o = sf.run_dl(text_path, facts, out, args=cfg.get("args", []), env=cfg.get("env"), timeout=cfg.get("timeout", 60))
+        args = list(cfg.get("args", []))
+        if cfg.get("autoschedule"):     # profile the same program/EDB first, then schedule from that profile
+            prof = os.path.join(rundir, "prof.json")
+            o0 = sf.run_dl(text_path, facts, os.path.join(rundir, "out_prof"), args=args + ["-p", prof, "--emit-statistics"],
+                           env=cfg.get("env"), timeout=cfg.get("timeout", 60))
+            if o0.kind != "ok":
+                o0.stderr = "[profiling run] " + o0.stderr
+                return o0
+            args = args + ["-a", prof]
+        o = sf.run_dl(text_path, facts, out, args=args, env=cfg.get("env"), timeout=cfg.get("timeout", 60))
     if o.kind == "ok":
         try:
             sf.collect(P, out, o)
@@ -92,8 +101,21 @@ def run_configs(P, cases, configs, wd, res, pid, label, max_cases=None, rng=None
         if cfg.get("compile"):
             exe = os.path.join(pdir, "c%d.exe" % ci)
             from .common import run
-            rc, so, se = run([build.SOUFFLE] + list(cfg.get("args", [])) + ["-o", exe, tp], timeout=600, env=cfg.get("env"))
+            cenv = dict(cfg.get("compile_env") or {})
+            if cfg.get("compile_mode") == "-C":      # multi-file generation, then the same compile script souffle uses
+                gdir = os.path.join(pdir, "c%d_gen" % ci)
+                shutil.rmtree(gdir, ignore_errors=True)
+                rc, so, se = run([build.SOUFFLE] + list(cfg.get("args", [])) + ["-G", gdir, tp], timeout=300, env=cenv)
+                if rc == 0:
+                    srcs = sorted(os.path.join(gdir, f) for f in os.listdir(gdir) if f.endswith(".cpp"))
+                    rc, so, se = run(["python3", os.path.join(os.path.dirname(build.SOUFFLE), "souffle-compile.py")] + srcs +
+                                     ["-o", exe], timeout=900, env=cenv)
+            else:
+                rc, so, se = run([build.SOUFFLE] + list(cfg.get("args", [])) + ["-o", exe, tp], timeout=900, env=cenv)
             if rc != 0 or not os.path.exists(exe):
+                if cfg.get("reject_ok") and rc == 1 and "Error" in se and "rror: " in se:
+                    res.count("variants_rejected_by_checker")
+                    continue
                 desc = "[%s] compiling %s failed rc=%s: %s" % (cfg["name"], tp, rc, se[-800:])
                 _report(res, pid, desc, pdir, P, None, cfg, tp, on_violation)
                 continue
@@ -106,8 +128,14 @@ def run_configs(P, cases, configs, wd, res, pid, label, max_cases=None, rng=None
     finally:
         if own:
             pool.shutdown()
+    rejected = set()
     for job, o in zip(jobs, outs):
         (PV, tp, case, cfg, rundir, exe) = job
+        if cfg.get("reject_ok") and o.kind == "error" and o.rc == 1 and "Error" in o.stderr:
+            if tp not in rejected:
+                rejected.add(tp); res.count("variants_rejected_by_checker")
+            shutil.rmtree(rundir, ignore_errors=True)
+            continue
         runs += 1
         d = compare(PV, case, o)
         if d is not None:
